@@ -276,9 +276,7 @@ func (wl *WaitList) get(address types.Address) *Model {
 
 	m.address = address
 	m.markDirty = wl.markDirty
-	wl.setToMap(address, m)
-
-	return m
+	return wl.setToMapIfAbsent(address, m)
 }
 
 func (wl *WaitList) getFromMap(address types.Address) *Model {
@@ -293,6 +291,20 @@ func (wl *WaitList) setToMap(address types.Address, model *Model) {
 	defer wl.lock.Unlock()
 
 	wl.list[address] = model
+}
+
+// setToMapIfAbsent caches a record that was just loaded from the tree unless another goroutine
+// (an API query running next to block execution) has loaded and cached the same record in the
+// meantime; it returns the cached object, so that every caller works on one and the same object.
+func (wl *WaitList) setToMapIfAbsent(address types.Address, model *Model) *Model {
+	wl.lock.Lock()
+	defer wl.lock.Unlock()
+
+	if existing := wl.list[address]; existing != nil {
+		return existing
+	}
+	wl.list[address] = model
+	return model
 }
 
 func (wl *WaitList) markDirty(address types.Address) {
